@@ -377,3 +377,45 @@ extern "C" void vp_bk_step()
    }
    vp_witness("end");
 }
+
+/* ST-RESET (C11): the per-file reset. From an ARBITRARY valuation of the per-file state that the
+ * tokenizer, the newline passes and the output stage read before they write it (left behind by a
+ * previous file: disabled region still open, preprocessor level, terminator census, ...), the real
+ * uncrustify_end() restores the values a fresh process starts with, empties the chunk list and the
+ * capture buffer. One step from an arbitrary state = any number of previous files. */
+extern "C" void vp_st_reset()
+{
+   cpd.unc_off     = vp_bool();
+   cpd.al_cnt      = (size_t)vp_nondet();
+   cpd.did_newline = vp_bool();
+   cpd.pp_level    = (int)vp_nondet();
+   cpd.changes     = (int)vp_nondet();
+   cpd.in_preproc  = vp_bool() ? CT_PREPROC : CT_PP_DEFINE;
+   for (int i = 0; i < 3; i++) { cpd.le_counts[i] = (UINT32)vp_nondet(); }
+   cpd.preproc_ncnl_count    = (int)vp_nondet();
+   cpd.ifdef_over_whole_file = (int)vp_nondet();
+   cpd.warned_unable_string_replace_tab_chars = vp_bool();
+   cpd.bout = vp_bool() ? &vp_bout : nullptr;
+   for (unsigned i = 0; i < VPLO; i++) { vp_bout.push_back(vp_u8()); }
+   unsigned nchunks = (unsigned)vp_range(0, 2);
+   for (unsigned i = 0; i < 2; i++)
+   {
+      if (i < nchunks)
+      {
+         Chunk c;
+         c.SetType(vp_bool() ? CT_WORD : CT_NEWLINE);
+         c.SetOrigLine(1);
+         c.SetPpLevel(0);
+         c.CopyAndAddBefore(Chunk::NullChunkPtr);
+      }
+   }
+   uncrustify_end();
+   vp_assert(Chunk::GetHead()->IsNullChunk() && Chunk::GetTail()->IsNullChunk(), "C11:chunks of the previous file survive the per-file reset");
+   vp_assert(!cpd.unc_off, "C11:a disabled region left open by one file carries over to the next");
+   vp_assert(cpd.in_preproc == CT_NONE && cpd.pp_level == 0 && cpd.preproc_ncnl_count == 0, "C11:preprocessor state carries over to the next file");
+   vp_assert(cpd.le_counts[0] == 0 && cpd.le_counts[1] == 0 && cpd.le_counts[2] == 0, "C11:line-terminator census carries over to the next file (newlines=auto would depend on earlier files)");
+   vp_assert(cpd.did_newline && cpd.changes == 0 && cpd.al_cnt == 0 && cpd.ifdef_over_whole_file == 0 && !cpd.warned_unable_string_replace_tab_chars,
+             "C11:pass bookkeeping carries over to the next file");
+   vp_assert(cpd.bout == nullptr || cpd.bout->size() == 0, "C11:captured output of the previous file not cleared");
+   vp_witness("end");
+}
